@@ -122,6 +122,8 @@ pub fn check(property: &str) -> Option<CheckDef> {
                 let mut v = c01_parts(2);
                 v.extend(c02_parts(2));
                 v.push(part(Box::new(Erased(engines::paintmon::PaintMonitor)), 500_000, 10_000_000, "C13", 20));
+                // subsetting is named by C20 only; plain panics of the subsetter on damaged fonts belong to no listed property
+                v.push(part(Box::new(Erased(engines::images::SubsetImages)), 12_000, 400_000, "C17", 20));
                 v
             },
             assumptions: vec![
@@ -138,7 +140,7 @@ fn c01_parts(div: u64) -> Vec<Part> {
         part(Box::new(Erased(engines::images::ReadImages)), 400_000 / div, 8_000_000 / div, "C01", 20),
         part(Box::new(Erased(engines::images::ReadEnum { skrifa: false })), 2_800 / div, 11_200 / div, "C01", 90),
         part(Box::new(Erased(engines::images::SkewedArgs)), 300_000 / div, 6_000_000 / div, "C01", 20),
-        part(Box::new(Erased(engines::images::ReadWindowEnum)), 1_600 / div, 48_000 / div, "C01", 90),
+        part(Box::new(Erased(engines::images::ReadWindowEnum)), 1_600 / div, engines::images::table_window_count() / div, "C01", 90),
     ]
 }
 
